@@ -270,7 +270,7 @@ func cfgKey(d dymnstypes.DymName) string {
 
 // owner_unique_authorised + the asset half of sale_exact
 func (h *c17h) monitorAuth(f []string, pre, post *c17snap) {
-	signer := c17Acct(atoi(f[1]))
+	signer := c17Acct(c17atoi(f[1]))
 	grace := int64(h.params().Misc.GracePeriodDuration.Seconds())
 	op := f[0]
 	line := strings.Join(f, " ")
@@ -314,7 +314,7 @@ func (h *c17h) monitorAuth(f []string, pre, post *c17snap) {
 				bo, has := pre.bos[f[2]]
 				sale = has && signer == d.Owner && q.Owner == bo.Buyer
 			case "xfer":
-				sale = signer == d.Owner && q.Owner == c17Acct(atoi(f[3]))
+				sale = signer == d.Owner && q.Owner == c17Acct(c17atoi(f[3]))
 			}
 			if !sale {
 				h.violate("C17/owner_auth/owner-changed-without-authorisation", fmt.Sprintf("%s: %s -> %s", line, h.acct(d.Owner), h.acct(q.Owner)))
@@ -373,7 +373,7 @@ func (h *c17h) monitorLedger(f []string, pre, post *c17snap) {
 		}
 	}
 	op := f[0]
-	signer := c17Acct(atoi(f[1]))
+	signer := c17Acct(c17atoi(f[1]))
 	pe, qe := h.entries(pre), h.entries(post)
 	nameOwner := func(s *c17snap, i int) string { return s.names[i].Owner }
 	aliasOwner := func(s *c17snap, l int) string {
@@ -393,7 +393,7 @@ func (h *c17h) monitorLedger(f []string, pre, post *c17snap) {
 	instant := ""
 	if op == "buy" {
 		key := "s" + f[2] + f[3]
-		i := atoi(f[3])
+		i := c17atoi(f[3])
 		_, had := pre.nameSO[i]
 		_, has := post.nameSO[i]
 		if f[2] == "l" {
@@ -432,12 +432,12 @@ func (h *c17h) monitorLedger(f []string, pre, post *c17snap) {
 			seller := ""
 			switch {
 			case strings.HasPrefix(k, "sn") && (op == "comp" || op == "buy"):
-				i := atoi(k[2:])
+				i := c17atoi(k[2:])
 				if nameOwner(post, i) == p.maker && nameOwner(pre, i) != p.maker {
 					seller = nameOwner(pre, i)
 				}
 			case strings.HasPrefix(k, "sl") && (op == "comp" || op == "buy"):
-				l := atoi(k[2:])
+				l := c17atoi(k[2:])
 				if c, ok := post.alias[l]; ok && c17Chain(c) == p.dst && post.alias[l] != pre.alias[l] {
 					seller = aliasOwner(pre, l)
 				}
@@ -464,7 +464,7 @@ func (h *c17h) monitorLedger(f []string, pre, post *c17snap) {
 		fee, _ := new(big.Int).SetString(f[4], 10)
 		add(signer, fee, -1, "fee")
 	case "rollapp":
-		add(signer, h.params().Price.GetAliasPrice(c17Alias(atoi(f[4]))).BigInt(), -1, "fee")
+		add(signer, h.params().Price.GetAliasPrice(c17Alias(c17atoi(f[4]))).BigInt(), -1, "fee")
 	}
 	for i := 0; i < h.nA; i++ {
 		got := new(big.Int).Sub(post.bal[i].BigInt(), pre.bal[i].BigInt())
@@ -497,8 +497,8 @@ func (h *c17h) monitorReverseComplete(post *c17snap) {
 			if len(id) != 2 || strings.HasPrefix(id[0], "?") {
 				continue
 			}
-			wc := atoi(h.cfgChain(c.ChainId))
-			toks, err := h.revCandidates(atoi(id[0]), atoi(id[1]), wc)
+			wc := c17atoi(h.cfgChain(c.ChainId))
+			toks, err := h.revCandidates(c17atoi(id[0]), c17atoi(id[1]), wc)
 			want := fmt.Sprintf("%s.%d@", h.pathID(c.Path), i)
 			found := false
 			for _, t := range toks {
@@ -517,7 +517,7 @@ func (h *c17h) monitorReverseComplete(post *c17snap) {
 
 // ownFormat: the address text carries the bech32 prefix of the working chain
 func (h *c17h) ownFormat(addr string, wc int) bool {
-	hrp := atoi(strings.Split(addr, ":")[0])
+	hrp := c17atoi(strings.Split(addr, ":")[0])
 	if wc == 0 {
 		return hrp == 0
 	}
@@ -540,7 +540,7 @@ func (h *c17h) monitorQuery(f []string, obs, line string) {
 			h.violate("C17/resolve_agree/reverse-candidate-unparsable", tok, line)
 			continue
 		}
-		path, n, handle := atoi(tok[:dot]), atoi(tok[dot+1:at]), tok[at+1:]
+		path, n, handle := c17atoi(tok[:dot]), c17atoi(tok[dot+1:at]), tok[at+1:]
 		got := h.resolveTok(path, n, handle)
 		if got == f[1] {
 			h.r.Hit("rev-candidate-resolves-back")
@@ -549,14 +549,14 @@ func (h *c17h) monitorQuery(f []string, obs, line string) {
 		kind := "forward-gives-another-address"
 		if got == "-" {
 			kind = "forward-gives-nothing"
-		} else if strings.Split(got, ":")[1] == strings.Split(f[1], ":")[1] && !h.ownFormat(f[1], atoi(f[2])) {
+		} else if strings.Split(got, ":")[1] == strings.Split(f[1], ":")[1] && !h.ownFormat(f[1], c17atoi(f[2])) {
 			// the queried text is not an address in the working chain's own format (other bech32
 			// prefix): the fallback lookup goes by account bytes, the candidate names the same account
 			h.r.Hit("rev-foreign-prefix-same-account")
 			continue
 		}
 		// narrow the signature to the cause, so that a known finding cannot hide a different defect
-		wc := atoi(f[2])
+		wc := c17atoi(f[2])
 		if d := h.k.GetDymName(h.ctx(), c17Name(n)); d != nil && wc != 0 && path == 0 {
 			explicit := false
 			for _, c := range d.Configs {
@@ -585,17 +585,17 @@ func (h *c17h) branches(f []string, pre, post *c17snap) {
 	grace := int64(h.params().Misc.GracePeriodDuration.Seconds())
 	switch f[0] {
 	case "reg":
-		i := atoi(f[2])
+		i := c17atoi(f[2])
 		d, had := pre.names[i]
 		switch {
 		case !had:
 			hit("register-new")
-		case d.Owner == c17Acct(atoi(f[1])) && pre.expired(d):
+		case d.Owner == c17Acct(c17atoi(f[1])) && pre.expired(d):
 			hit("renew-expired-by-owner")
 			if pre.now < d.ExpireAt+grace {
 				hit("renew-inside-grace")
 			}
-		case d.Owner == c17Acct(atoi(f[1])):
+		case d.Owner == c17Acct(c17atoi(f[1])):
 			hit("extend-unexpired")
 		default:
 			hit("take-over-after-grace")
@@ -613,11 +613,11 @@ func (h *c17h) branches(f []string, pre, post *c17snap) {
 		}
 	case "xfer":
 		hit("transfer")
-		if len(pre.names[atoi(f[2])].Configs) > 0 {
+		if len(pre.names[c17atoi(f[2])].Configs) > 0 {
 			hit("transfer-clears-configs")
 		}
 	case "buy":
-		key := atoi(f[3])
+		key := c17atoi(f[3])
 		pso, had := pre.nameSO[key]
 		_, has := post.nameSO[key]
 		if f[2] == "l" {
@@ -626,7 +626,7 @@ func (h *c17h) branches(f []string, pre, post *c17snap) {
 		}
 		if had && pso.HighestBid != nil {
 			hit("purchase-outbids-refund")
-			if pso.HighestBid.Bidder == c17Acct(atoi(f[1])) {
+			if pso.HighestBid.Bidder == c17Acct(c17atoi(f[1])) {
 				hit("purchase-raises-own-bid")
 			}
 		}
@@ -636,7 +636,7 @@ func (h *c17h) branches(f []string, pre, post *c17snap) {
 			hit("purchase-bid-" + f[2])
 		}
 	case "comp":
-		key := atoi(f[3])
+		key := c17atoi(f[3])
 		if f[2] == "n" {
 			d := pre.names[key]
 			switch {
@@ -693,7 +693,7 @@ func (h *c17h) branchesRejected(f []string, obs string, pre *c17snap) {
 	grace := int64(h.params().Misc.GracePeriodDuration.Seconds())
 	switch f[0] {
 	case "reg":
-		if d, ok := pre.names[atoi(f[2])]; ok && d.Owner != c17Acct(atoi(f[1])) {
+		if d, ok := pre.names[c17atoi(f[2])]; ok && d.Owner != c17Acct(c17atoi(f[1])) {
 			switch {
 			case obs == "unauth":
 				hit("take-over-unexpired-rejected")
